@@ -97,11 +97,18 @@ pub fn delivery() {
         delivered.push(f.clone());
     }
     t.m.refresh().expect("refresh");
+    let mut reload_left = hist == 0;
     while !pending.is_empty() {
         let f = pending.remove(sym::choose(pending.len()));
         t.ad.write().unwrap().write_object(&f, &src.read_object(&f, 0, 0).unwrap()).unwrap();
         delivered.push(f);
-        t.m.refresh().expect("refresh");
+        // once per run the live replica may do a full reload instead of an incremental refresh
+        if reload_left && sym::any_bool() {
+            reload_left = false;
+            t.m.reload().expect("reload");
+        } else {
+            t.m.refresh().expect("refresh");
+        }
         // which blocks are causally complete in the delivered set?
         let mut complete: Vec<DeltaId> = Vec::new();
         loop {
